@@ -1,5 +1,6 @@
 #![allow(dead_code)]
 //! `check <property> [--tier quick|thorough] [--replay <file>]`
+mod c10;
 mod c11;
 mod c19;
 mod common;
@@ -16,6 +17,7 @@ type CheckFn = fn(&serde_json::Value) -> Verdict;
 
 fn lookup(id: &str) -> Option<(RunFn, CheckFn)> {
     Some(match id {
+        "C10" => (c10::run, c10::check_record),
         "C11" => (c11::run, c11::check_record),
         "C19" => (c19::run, c19::check_record),
         _ => return None,
